@@ -9,7 +9,7 @@ from ..snapshot import CLASS_NAMES, build, pg_from_json, pg_to_json, snap
 LEVEL = "exploration"
 RULE = (
     "random graphs of the 4 classes (empty, single atom, isolated atoms, disconnected, all 6 descriptor "
-    "classes, placeholders, unspecified parities, formed/broken/fleeting bonds, stereo changes) x variants: "
+    "classes, placeholders, unspecified parities, formed/broken/fleeting bonds, stereo changes; 8 % large inputs of 20-110 atoms: long chains, macrocycles, big random graphs, RDKit drug-like molecules and complexes; 12 % unions of 1-WL-indistinguishable components) x variants: "
     "rebuild through public mutators under a random id bijection and shuffled insertion order; "
     "relabel_atoms copy / in place; every descriptor rewritten by a random proper (same parity) or improper "
     "(opposite parity) symmetry; composition of all. Real ==, reversed ==, is_isomorphic, reflexive == are "
@@ -32,7 +32,7 @@ ANCHORS = [
     "stereomolgraph.graphs.scrg:StereoCondensedReactionGraph.relabel_atoms",
 ]
 REQUIRED_ANCHORS = ANCHORS
-REQUIRED = ["eq_observed", "with_changes", "with_placeholder", "with_unspecified", "empty_graph", "isolated_atoms", "harness_crosscheck", "disconnected"]
+REQUIRED = ["eq_observed", "with_changes", "with_placeholder", "with_unspecified", "empty_graph", "isolated_atoms", "harness_crosscheck", "disconnected", "large_graphs"]
 VARIANTS = ("rebuild", "relabel_copy", "relabel_inplace", "rewrite", "all")
 
 
@@ -63,6 +63,8 @@ def gen_cases(ctx):
             pg = gen.random_pg(rng, cls, n_range=(1, 1), allow_isolated=False)
         elif special in (2, 3, 4):
             pg = gen.wl_hard_pg(rng, cls)  # unions of 1-WL-indistinguishable, non-isomorphic components
+        elif special in (5, 6):
+            pg = gen.large_pg(rng, cls)  # 20-110 atoms: long chains, macrocycles, big random graphs, RDKit molecules
         else:
             pg = gen.random_pg(rng, cls, n_range=big if rng.random() < 0.3 else (2, 9), alphabet=rng.choice([gen.TINY, gen.SMALL, gen.WIDE]), p_none=p_none, allow_empty=False)
         m = gen.random_bijection(rng, pg)
@@ -112,6 +114,8 @@ def check_case(ctx, case):
         ctx.count("with_placeholder")
     if any(d[2] is None for d in descs):
         ctx.count("with_unspecified")
+    if len(pg["atoms"]) >= 20:
+        ctx.count("large_graphs")
     if "empty" in feats:
         ctx.count("empty_graph")
     if "isolated" in feats:
